@@ -423,12 +423,14 @@ class PlSqlDialect(AnsiSqlDialect):
             "access",
             "audit",
             "column",
+            "column_value",
             "file",
             "increment",
             "initial",
             "integer",
             "maxextents",
             "mlslabel",
+            "nested_table_id",
             "noaudit",
             "number",
             "offline",
